@@ -48,7 +48,7 @@ CFG = {
     "theorems": ["C13_struct_size", "C13_value_size", "C13_output_size", "C13_witness_sizes", "C13_tx_size",
                  "C13_intermediate_value", "C13_estimators_safe", "C13_legacy_fee_bound_refuted", "C13_finalise",
                  "C13_denotation", "C13_partition", "C13_partition_legacy_refuted", "C13_finalise_without_check_refuted",
-                 "C13_legacy_fee_estimate_refuted", "C13_judge_sound", "C13_fewer_signatures", "C13_batch_valid", "C13_pure_ada_full"],
+                 "C13_legacy_fee_estimate_refuted", "C13_judge_sound", "C13_fewer_signatures", "C13_batch_valid", "C13_pure_ada_full", "C13_full", "C13_refinement"],
     "allowed_axioms": [],
     "compare": _agree,
     "nontrivial": _nontrivial,
